@@ -12,6 +12,7 @@ from genf import translate  # noqa: E402,F401  (regenerates lean/PyribsGen/Formu
 PROOF_MODULES = ["PyribsProofs.C06", "PyribsProofs.C06b", "PyribsProofs.Cqd", "PyribsProofs.C14b", "PyribsProofs.C15b", "PyribsGen.Formulas", "PyribsProofs.GenF"]
 THEOREMS = [
     "Pyribs.GenFProofs.stats_match",
+    "Pyribs.GenFProofs.cqd_value_matches",
     "Pyribs.C06.sum_point_update",
     "Pyribs.C06.totalObj_applyWs",
     "Pyribs.C06.batchWrites_nodup",
